@@ -181,6 +181,11 @@ OsQuiesce(ev, L) ==
   /\ ostep' = ostep + 1
   /\ OG("QuiesceNoLive", Cardinality(DOMAIN L), DOMAIN L = {})
   /\ (ev.round >= 2 => OG("AllReleased", IF left = {} THEN <<>> ELSE (CHOOSE s \in left : TRUE), left = {}))
+  \* what may stay from the first round outside arenas and tables is allocator meta data (thread data, arena descriptors): small.
+  \* A region of more than 1 MiB that is still mapped was obtained for blocks or segments and has not been given back
+  \* (demanded while no OS call is being refused: C07 asks for it once the OS grants requests again).
+  /\ LET big == {s \in maps : PagesOf(s) > 256 /\ ~InArenas(s, ev.arenas) /\ ~IsTable(s) /\ ~Refused(s)} IN
+     (~ev.armed => OG("AllReleased", IF big = {} THEN <<>> ELSE (CHOOSE s \in big : TRUE), big = {}))
   /\ (oscfg.purge_delay >= 0 => OG("DirtyAllReleased", Cardinality(dirtyU \ refusedU), dirtyU \subseteq refusedU))
   /\ ((ev.round >= 3 /\ refusedU = {}) => OG("NoCreepMapped", <<prevQ[1], mp>>, mp <= prevQ[1]))
   /\ ((ev.round >= 3 /\ refusedU = {}) => OG("NoCreepResident", <<prevQ[2], ev.resident>>, ev.resident <= prevQ[2] + ev.tol))
